@@ -18,7 +18,7 @@ LEVEL = "model_checking"
 TECHNIQUE = ("explicit-state breadth-first search over workspace operation sequences on the real Workspace API (states = canonical JSON), every transition compared "
              "with a list-of-dicts reference model and the reference likelihood; all ordered pairs x 4 joins x merge on/off for combine")
 PRELOAD = None
-LEVEL_TEXT = ("Pairs: all ordered pairs of an 9-workspace alphabet (disjoint / overlapping-identical / overlapping-conflicting channels, observations, measurements; "
+LEVEL_TEXT = ("Pairs: all ordered pairs of a 10-workspace alphabet (disjoint / overlapping-identical / overlapping-conflicting channels, observations, measurements; "
               "shared and private parameters; different POI; different version) x 4 joins x merge on/off against the reference join facts and the reference "
               "likelihood. Histories: BFS to depth 2 (3 thorough) over {combine, prune(each item), rename(each name and swaps), sorted}; every transition calls "
               "the real API on a workspace rebuilt from the state's JSON and is compared with the reference model; rename inverse, sort idempotence and "
@@ -26,15 +26,18 @@ LEVEL_TEXT = ("Pairs: all ordered pairs of an 9-workspace alphabet (disjoint / o
 LEVEL_NOTE = "trusted: mc/ref/workspace.py (written from the docstrings), mc/ref/histfactory.py; numpy backend; states are canonical JSON because every operation is a function of the JSON only"
 
 
-def W(ch, nom, meas="m", poi="mu", pars=None, obs=None, shared="n1", lumi=False, version="1.0.0", extra_channel=None):
+def W(ch, nom, meas="m", poi="mu", pars=None, obs=None, shared="n1", lumi=False, version="1.0.0", extra_channel=None, sample_suffix="", two_types=False):
     mods_s = [{"name": poi, "type": "normfactor", "data": None}]
     mods_b = [{"name": shared, "type": "normsys", "data": {"lo": 0.9, "hi": 1.1}}, {"name": f"st_{ch}", "type": "staterror", "data": [round(0.1 * x, 3) for x in nom]}]
+    if two_types:  # one name under two modifier types on one sample, listed in non-(name, type) order
+        mods_b.insert(1, {"name": shared, "type": "histosys", "data": {"lo_data": [round(0.95 * x, 3) for x in nom], "hi_data": [round(1.08 * x, 3) for x in nom]}})
     if lumi:
         mods_b.append({"name": "lumi", "type": "lumi", "data": None})
     pars = list(pars or [])
     if lumi:
         pars.append({"name": "lumi", "auxdata": [1.0], "sigmas": [0.02], "bounds": [[0.5, 1.5]], "inits": [1.0]})
-    chans = [{"name": ch, "samples": [{"name": "sig", "data": [round(x * 0.1, 3) for x in nom], "modifiers": mods_s}, {"name": "bkg", "data": list(nom), "modifiers": mods_b}]}]
+    chans = [{"name": ch, "samples": [{"name": "sig" + sample_suffix, "data": [round(x * 0.1, 3) for x in nom], "modifiers": mods_s},
+                                      {"name": "bkg" + sample_suffix, "data": list(nom), "modifiers": mods_b}]}]
     observations = [{"name": ch, "data": obs or [x + 1 for x in nom]}]
     if extra_channel:
         en, enom = extra_channel
@@ -49,7 +52,8 @@ def alphabet():
     mu_b = {"name": "mu", "bounds": [[0, 5]], "inits": [1.0]}
     return {
         "A": W("a", [10.0, 20.0]),
-        "B": W("b", [30.0, 40.0, 50.0], extra_channel=("z", [8.0, 9.0])),
+        "B": W("b", [30.0, 40.0, 50.0], extra_channel=("z", [8.0, 9.0]), two_types=True),
+        "Aother": W("a", [12.0, 22.0], sample_suffix="2", obs=[11.0, 21.0]),  # channel a again, but with different samples (merge_channels)
         "Asame+C": W("a", [10.0, 20.0], extra_channel=("c", [5.0, 6.0])),
         "Aconf": W("a", [11.0, 20.0]),
         "Dpoi": W("d", [12.0, 14.0], poi="k"),
@@ -70,7 +74,7 @@ def plan(tier, seed):
         cases.append({"kind": "bfs", "root": root, "depth": depth})
     return dict(
         cases=cases, chunk=1,
-        rule="pair case = ordered pair of the 9-workspace alphabet x {none, outer, left outer, right outer} x merge_channels on/off; bfs case = breadth-first search from a "
+        rule="pair case = ordered pair of the 10-workspace alphabet x {none, outer, left outer, right outer} x merge_channels on/off; bfs case = breadth-first search from a "
              "root workspace over {combine with A/B/Em2lumi (none, outer), prune each single channel/sample/modifier/modifier type/measurement, rename each single "
              "name and swaps, sorted} to the stated depth, deduplicated on canonical JSON; non-trivial = case contains accepted and refused operations; distinct = distinct case",
         alphabet={"workspaces": names, "joins": ["none", "outer", "left outer", "right outer"]},
